@@ -6,7 +6,7 @@ from .. import abixml, core, pscommon as pc, progspace as ps, toolrun
 LEVEL = "exploration"
 ENGINE = "progspace"
 TECHNIQUE = "bounded exhaustive exploration: every function with <= 2 parameters and every variable whose types range over all access paths up to depth 2 (quick) / 3 (thorough) of the base alphabet and one aggregate; expected signature from the generator's own model"
-RULE = ("type alphabet = closure of {int, char, long, double, struct S, enum E, typedef T} under {pointer, const, volatile, array[2] (variables only), pointer-to-function} up to the depth bound; "
+RULE = ("type alphabet = closure of {int, char, long, double, struct S, enum E, typedef T} under {pointer, const, volatile, array[2] (variables only), pointer-to-function} up to the depth bound, plus void*, volatile void*, const void*, const volatile void* (all in one translation unit); "
         "functions f(T1), f(T1, T2) with every return type, variadic variants, and variables of every type; ~50 units per binary; gcc and clang (DWARF 4/5 in thorough). Oracle: the function-decl / var-decl of each unit in "
         "abidw's output, with type ids resolved through the emitted type graph into a canonical string, equals the spec's return type, parameter list, variadic flag / variable type "
         "(const void and const references may appear without the qualifier). Non-trivial: every unit.")
@@ -34,10 +34,13 @@ def expect(t):
         return "typedef:" + t[1]
     if k == "p":
         return expect(t[1]) + "*"
-    if k == "c":
-        return "const " + expect(t[1])
-    if k == "v":
-        return "volatile " + expect(t[1])
+    if k in "cv":
+        q = "const" if k == "c" else "volatile"
+        if t[1][0] in "pf":
+            return expect(t[1]) + " " + q          # qualified pointer: postfix, as in abixml.type_string
+        if t[1][0] in "cv" and t[1][1][0] in "pf":
+            return expect(t[1]) + " " + q
+        return q + " " + expect(t[1])
     if k == "a":
         return expect(t[1]) + "[%d]" % t[2]
     if k == "f":
@@ -61,6 +64,8 @@ def type_closure(depth):
         unq = [t for t in level if t[0] not in "cv"]
         nxt.append(("f", unq[d % len(unq)], (level[(d + 1) % len(level)],)))
         nxt.append(("p", ("b", "void")))
+        # qualified void pointees next to plain void* in the same translation unit (their DIE names must stay distinct)
+        nxt += [("p", ("v", ("b", "void"))), ("p", ("c", ("b", "void"))), ("p", ("c", ("v", ("b", "void"))))]
         seen = set(map(repr, allt))
         nxt = [t for t in nxt if repr(t) not in seen]
         allt += nxt
@@ -128,7 +133,7 @@ def evaluate(ctx, e):
 
     def norm(s):
         # qualifier order is immaterial ("const volatile" == "volatile const"); const void is a documented normalisation
-        return s.replace("volatile const", "const volatile").replace("const void", "void")
+        return s.replace("volatile const", "const volatile").replace("const volatile void", "volatile void").replace("const void", "void").replace("* volatile const", "* const volatile")
     for i, u in packed:
         ok = True
         if u.fn:
